@@ -154,6 +154,14 @@ def check_region(ctx, case, L, region, pts, use_flags, light=False):
                           {"n_kept": len(kept), "n_unmasked": len(un), "first": diff[:3], "pt": [pts[i] for i in diff[:3]]}, mini(diff[0]) if diff else None)
         if not in_place and cat.event_count != len(pts):
             ctx.violation("filter_spatial_mutated_source", None)
+    # an empty catalog goes through the same hand-over: afterwards it is bound to the region and its counts are zeros, one per cell
+    for in_place in (True, False):
+        ce = CSEPCatalog(data=[])
+        oe = call(lambda: ce.filter_spatial(region, in_place=in_place).spatial_counts())
+        if not oe.ok:
+            ctx.unexpected(oe, "filter_spatial:empty_catalog")
+        elif numpy.asarray(oe.value).shape != (len(L.cells),) or numpy.asarray(oe.value).any():
+            ctx.violation("empty_catalog_counts_after_filter_spatial", {"shape": list(numpy.asarray(oe.value).shape), "cells": len(L.cells)})
     # sub-catalogs: the decision per event does not depend on which other events are in the catalog (all events inside the
     # bounding box, single events, only masked events)
     bb = call(region.get_bbox)
